@@ -104,6 +104,7 @@ GROUPS["vm"] = {
         H("k_halt_hands_over_result", ["C03", "C04", "C02"], bound=CW + "Pop; Halt: GC::untrace (recorder) is called once, with the value returned", tprops=["C01"]),
         H("k_error_exit_hands_over_nothing", ["C04", "C03"], bound=CW + "Not on any non-boolean immediate: Err, no untrace, no collection", tprops=["C01"]),
         H("k_prologue_adopts_constants", ["C03", "C04"], bound="3 constants (any immediate, a float, a text): GC::maybe_trace (recorder) sees each once, in order", tprops=["C01"]),
+        H("k_frame_roundtrip_any_position", ["C02", "C12"], bound="pushframe / popframe with ANY usize resume position, any 32-bit entry, base pointer <= 2", tprops=["C01", "C05"]),
         H("k_const", ["C02", "C12", "C10"], bound=CW + "1-3 constants, any index in range", tprops=["C01", "C05"]),
         H("k_const_string_is_copied", ["C02", "C10", "C13"], bound="string constant 'ab'", tprops=["C01"]),
         H("k_set_global_existing", ["C02", "C09", "C17"], bound=CW + "2 globals, index < 2", tprops=["C01", "C05", "C10"]),
